@@ -51,6 +51,7 @@ static KSI_CTX *trusting_ctx(int anchor /*0 good CA, 1 rogue CA only, 2 none*/, 
  * X unknown critical record, N unknown non-critical record */
 static const char ALPHA[] = "HCPSXN";
 
+static size_t g_nsize = 2;     /* payload size of the unknown non-critical record 'N' */
 static void build_file(const char *seq, int magic_variant, int trailing, vbuf *out, size_t *sig_off, int *nsig) {
 	rpubfile f;
 	const char *p;
@@ -70,7 +71,10 @@ static void build_file(const char *seq, int magic_variant, int trailing, vbuf *o
 			case 'P': hl = ref_fake_imprint(RH_SHA256, (unsigned)(50 + pubno), h); rpf_pub_record(1600000000ULL + (uint64_t)pubno * 86400, h, hl, out); pubno++; break;
 			case 'S': if ((*nsig)++ == 0) *sig_off = out->n; rpf_sig_record(&signer_good, out->p, out->n, out); break;
 			case 'X': rtlv_put(out, 0x0705, 0, 0, "\x01\x02", 2, 0); break;
-			case 'N': rtlv_put(out, 0x0705, 1, 0, "\x01\x02", 2, 0); break;
+			case 'N':
+				if (g_nsize <= 2) rtlv_put(out, 0x0705, 1, 0, "\x01\x02", 2, 0);
+				else { unsigned char *big = (unsigned char *)calloc(1, g_nsize); size_t q; for (q = 0; q < g_nsize; q++) big[q] = (unsigned char)(q * 13 + 5); rtlv_put(out, 0x0705, 1, 0, big, g_nsize, 1); free(big); }
+				break;
 		}
 	}
 	if (trailing == 1) vb_put(out, "\x00", 1);
@@ -162,6 +166,56 @@ static void part_structure(void) {
 				vb_free(&b);
 				vf_case_end(1);
 			}
+		}
+	}
+	/* record sizes at the top of what a 16-bit length can say: a record of 65531..65535 payload bytes (65535..65539 with its header) */
+	{
+		static const size_t SZ[] = {300, 65531, 65532, 65533, 65535};
+		static const char *SEQS[] = {"HCPNS", "HNCPS", "HCNPS"};
+		size_t zi, si;
+		for (si = 0; si < 3; si++) for (zi = 0; zi < 5; zi++) {
+			vbuf b;
+			size_t sig_off = 0, sdl = 0;
+			int nsig = 0, exp, res;
+			KSI_PublicationsFile *pf = NULL;
+			unsigned char *ex;
+			if (!vf_case_begin("struct-big:%s:n%zu", SEQS[si], SZ[zi])) continue;
+			pki_setup();
+			if (!ctx) ctx = ku_ctx();
+			vb_init(&b);
+			g_nsize = SZ[zi];
+			build_file(SEQS[si], 0, 0, &b, &sig_off, &nsig);
+			g_nsize = 2;
+			exp = ref_structure(SEQS[si], 0, 0);
+			ex = ku_exact(b.p, b.n);
+			res = KSI_PublicationsFile_parse(ctx, ex, b.n, &pf);
+			vf_count("impl_calls", 1);
+			vf_outcome("struct-big:%s:%s", exp == 1 ? "valid" : exp == 0 ? "invalid" : "silent", res == KSI_OK ? "accepted" : "refused");
+			if (exp == 1 && res != KSI_OK) vf_fail("valid-file-refused", "record sequence %s with an unknown non-critical record of %zu payload bytes refused: 0x%x", SEQS[si], SZ[zi], res);
+			if (exp == 0 && res == KSI_OK) vf_fail("invalid-file-accepted", "record sequence '%s' (big record) accepted", SEQS[si]);
+			{
+				/* whatever the parser makes of an unknown non-critical record at this place, it does not depend on how long the record is */
+				static int base_res[3];
+				vbuf b0;
+				size_t so0 = 0; int ns0 = 0;
+				KSI_PublicationsFile *pf0 = NULL;
+				vb_init(&b0);
+				g_nsize = 300; build_file(SEQS[si], 0, 0, &b0, &so0, &ns0); g_nsize = 2;
+				base_res[si] = KSI_PublicationsFile_parse(ctx, b0.p, b0.n, &pf0);
+				KSI_PublicationsFile_free(pf0);
+				vb_free(&b0);
+				if ((base_res[si] == KSI_OK) != (res == KSI_OK)) vf_fail("record-size-changes-acceptance", "record sequence %s: with an unknown non-critical record of 300 payload bytes the file is %s (0x%x), with %zu payload bytes %s (0x%x)", SEQS[si], base_res[si] == KSI_OK ? "accepted" : "refused", base_res[si], SZ[zi], res == KSI_OK ? "accepted" : "refused", res);
+			}
+			if (res == KSI_OK && exp != 0 && (KSI_PublicationsFile_getSignedDataLength(pf, &sdl) != KSI_OK || sdl != sig_off))
+				vf_fail("signed-range", "sequence %s, record of %zu bytes: signed data length %zu, signature record starts at %zu", SEQS[si], SZ[zi], sdl, sig_off);
+			if (res == KSI_OK && exp == 1) {
+				int v = KSI_PublicationsFile_verify(pf, NULL);
+				(void)v;
+			}
+			KSI_PublicationsFile_free(pf);
+			free(ex);
+			vb_free(&b);
+			vf_case_end(1);
 		}
 	}
 	if (ctx) KSI_CTX_free(ctx);
